@@ -8,7 +8,7 @@
 (* unitaries, density matrices, probabilities and Pauli coefficients are    *)
 (* evaluated by TLC without rounding and equality is decidable.             *)
 (***************************************************************************)
-EXTENDS Integers, Sequences
+EXTENDS Integers, Sequences, TLC
 
 CONSTANT M          \* 4, 8, 16, 32, ...
 
@@ -26,48 +26,48 @@ AllZero(c) == \A j \in 1..HM : c[j] = 0
 RECURSIVE Norm(_)
 Norm(x) == IF AllZero(x.c) THEN [c |-> x.c, k |-> 0]
            ELSE IF x.k > 0 /\ AllEven(x.c)
-                THEN Norm([c |-> [j \in 1..HM |-> x.c[j] \div 2], k |-> x.k - 1])
+                THEN Norm([c |-> TLCEval([j \in 1..HM |-> x.c[j] \div 2]), k |-> x.k - 1])
                 ELSE x
 
-RZero == [c |-> [j \in 1..HM |-> 0], k |-> 0]
-ROne  == [c |-> [j \in 1..HM |-> IF j = 1 THEN 1 ELSE 0], k |-> 0]
-FromInt(n) == [c |-> [j \in 1..HM |-> IF j = 1 THEN n ELSE 0], k |-> 0]
+RZero == [c |-> TLCEval([j \in 1..HM |-> 0]), k |-> 0]
+ROne  == [c |-> TLCEval([j \in 1..HM |-> IF j = 1 THEN 1 ELSE 0]), k |-> 0]
+FromInt(n) == [c |-> TLCEval([j \in 1..HM |-> IF j = 1 THEN n ELSE 0]), k |-> 0]
 \* n / 2^k
-Dyadic(n, k) == Norm([c |-> [j \in 1..HM |-> IF j = 1 THEN n ELSE 0], k |-> k])
+Dyadic(n, k) == Norm([c |-> TLCEval([j \in 1..HM |-> IF j = 1 THEN n ELSE 0]), k |-> k])
 
 \* zeta^j for any integer j
 Zeta(j) == LET jm == j % M IN
-           [c |-> [p \in 1..HM |-> IF jm < HM THEN (IF p = jm + 1 THEN 1 ELSE 0)
-                                              ELSE (IF p = jm - HM + 1 THEN -1 ELSE 0)],
+           [c |-> TLCEval([p \in 1..HM |-> IF jm < HM THEN (IF p = jm + 1 THEN 1 ELSE 0)
+                                              ELSE (IF p = jm - HM + 1 THEN -1 ELSE 0)]),
             k |-> 0]
 
 RI == Zeta(M \div 4)             \* the imaginary unit
 
-Neg(a) == [c |-> [j \in 1..HM |-> -a.c[j]], k |-> a.k]
+Neg(a) == [c |-> TLCEval([j \in 1..HM |-> -a.c[j]]), k |-> a.k]
 
 Add(a, b) ==
   IF a = RZero THEN b ELSE IF b = RZero THEN a ELSE
   LET K  == IF a.k >= b.k THEN a.k ELSE b.k
       fa == Pow2(K - a.k)
       fb == Pow2(K - b.k)
-  IN Norm([c |-> [j \in 1..HM |-> a.c[j] * fa + b.c[j] * fb], k |-> K])
+  IN Norm([c |-> TLCEval([j \in 1..HM |-> a.c[j] * fa + b.c[j] * fb]), k |-> K])
 
 Sub(a, b) == Add(a, Neg(b))
 
 \* negacyclic convolution
 MulC(a, b, j0) ==
-  SumSeq([p \in 1..HM |-> LET p0 == p - 1 IN
+  SumSeq(TLCEval([p \in 1..HM |-> LET p0 == p - 1 IN
             IF a[p] = 0 THEN 0
             ELSE IF p0 <= j0 THEN a[p] * b[j0 - p0 + 1]
-                             ELSE -(a[p] * b[j0 - p0 + HM + 1])], HM)
+                             ELSE -(a[p] * b[j0 - p0 + HM + 1])]), HM)
 
 Mul(a, b) ==
   IF a = RZero \/ b = RZero THEN RZero
   ELSE IF a = ROne THEN b ELSE IF b = ROne THEN a
-  ELSE Norm([c |-> [j \in 1..HM |-> MulC(a.c, b.c, j - 1)], k |-> a.k + b.k])
+  ELSE Norm([c |-> TLCEval([j \in 1..HM |-> MulC(a.c, b.c, j - 1)]), k |-> a.k + b.k])
 
 \* complex conjugate: conj(zeta^j) = -zeta^(M/2-j)
-Conj(a) == [c |-> [j \in 1..HM |-> IF j = 1 THEN a.c[1] ELSE -a.c[HM - j + 2]], k |-> a.k]
+Conj(a) == [c |-> TLCEval([j \in 1..HM |-> IF j = 1 THEN a.c[1] ELSE -a.c[HM - j + 2]]), k |-> a.k]
 
 Half(a) == Norm([c |-> a.c, k |-> a.k + 1])
 
